@@ -571,3 +571,178 @@ def c13_merges(tier, seed):
     return {'name': 'merge-histories', 'evaluations': n, 'distinct_nontrivial': distinct, 'violations': viol, 'samples': samples,
             'bound': '%d random splits over 1..4 correlations x all orders + injected conflicts; 24 include orders, nesting, conflicts, duplicate spellings, aliasing' % ncase,
             'rule': 'a case is (data, split); distinct by construction'}
+
+
+# ---------------------------------------------------------------------------------------------- C08
+def c08_matcher(tier, seed):
+    """bounded-exhaustive fragments (<= 2 atoms, <= 1 constraint; every symbol class, prefix, suffix, bond kind, constraint form,
+    comparison operator, negation, molecule prefix) x small molecules, against an independent brute-force matcher that reads
+    the structured description of the fragment (not its text) and uses RDKit only for elementary observers."""
+    from rdkit import Chem
+    from pgradd.RINGParser.Reader import Read
+    rnd = random.Random(seed)
+    smiles = ['C', 'CC', 'C=C', 'C#C', 'CO', 'C=O', 'CCO', 'CC=O', 'C1CC1', 'C1CO1', '[CH3]', '[CH2]C', '[CH]=C', 'C[O-]', 'C[NH3+]', 'CN', 'O=C=O',
+              '[CH2][CH2]', 'C[C]C', 'C1=CC1', 'OO', 'N#N', '[OH]', 'C1CCC1', 'C12CC1C2', 'c1ccccc1', 'CC(C)=O']
+    if tier == 'quick':
+        smiles = smiles[:18]
+    mols = []
+    for s in smiles:
+        m = Chem.AddHs(Chem.MolFromSmiles(s))
+        mols.append((s, m))
+    ops = {'>': lambda a, b: a > b, '<': lambda a, b: a < b, '>=': lambda a, b: a >= b, '<=': lambda a, b: a <= b, '=': lambda a, b: a == b}
+    symbols = ['C', 'O', 'N', 'H', '$', 'X', '&']
+    prefixes = [None, 'ringatom', 'nonringatom', 'allylic', 'aromatic', 'nonaromatic']
+    suffixes = [None, '.', ':', '+', '-', '?', '+.']
+    bondkinds = ['single', 'double', 'triple', 'any', 'ring', 'nonring', 'strong', 'aromatic']
+    molprefixes = [None, 'positive', 'negative', 'neutral', 'cyclic', 'linear', 'olefinic', 'paraffinic', 'neutral cyclic']
+
+    def sym_ok(sym, a):
+        z = a.GetAtomicNum()
+        return {'$': z > 0, 'X': z > 1, '&': z in (7, 8, 15, 16)}.get(sym, a.GetSymbol() == sym)
+
+    def type_ok(t, a):
+        pre, sym, suf = t
+        if not sym_ok(sym, a):
+            return False
+        if pre == 'ringatom' and not a.IsInRing():
+            return False
+        if pre == 'nonringatom' and a.IsInRing():
+            return False
+        if pre == 'aromatic' and not a.GetIsAromatic():
+            return False
+        if pre == 'nonaromatic' and a.GetIsAromatic():
+            return False
+        if pre == 'allylic' and not any(b.GetBondType() == Chem.BondType.DOUBLE for b in a.GetBonds()):
+            return False
+        rad, chg = a.GetNumRadicalElectrons(), a.GetFormalCharge()
+        if suf is None:
+            return rad == 0 and chg == 0
+        return {'.': rad == 1, ':': rad == 2, '+': chg == 1, '-': chg == -1, '?': True, '+.': rad == 1 and chg == 1}[suf]
+
+    def bond_ok(kind, b):
+        t = b.GetBondType()
+        BT = Chem.BondType
+        return {'single': t == BT.SINGLE, 'double': t == BT.DOUBLE, 'triple': t == BT.TRIPLE, 'aromatic': t == BT.AROMATIC, 'any': True,
+                'ring': b.IsInRing(), 'nonring': not b.IsInRing(), 'strong': t in (BT.DOUBLE, BT.TRIPLE, BT.QUADRUPLE, BT.AROMATIC)}[kind]
+
+    def cons_ok(c, a, m):
+        if c is None:
+            return True
+        kind = c[0]
+        if kind == 'conn':
+            _, neg, op, n, t, bk = c
+            cnt = sum(1 for b in a.GetBonds() if type_ok(t, b.GetOtherAtom(a)) and bond_ok(bk, b))
+            return ops[op](cnt, n) != neg
+        rings = [r for r in m.GetRingInfo().AtomRings() if a.GetIdx() in r]
+        if kind == 'ringsize':
+            _, neg, op, n = c
+            return any(ops[op](len(r), n) for r in rings) != neg
+        if kind == 'nring':
+            _, neg, op, n = c
+            return ops[op](len(rings), n) != neg
+        if kind == 'radical':
+            _, neg, op, n = c
+            return ops[op](a.GetNumRadicalElectrons(), n) != neg
+
+    def molprefix_ok(p, m):
+        if p is None:
+            return True
+        ok = True
+        for w in p.split():
+            tot = sum(a.GetFormalCharge() for a in m.GetAtoms())
+            nr = m.GetRingInfo().NumRings()
+            cc = m.HasSubstructMatch(Chem.MolFromSmiles('C=C'))
+            ok = ok and {'positive': tot == 1, 'negative': tot == -1, 'neutral': tot == 0, 'cyclic': nr > 0, 'linear': nr == 0, 'olefinic': cc, 'paraffinic': not cc}[w]
+        return ok
+
+    def text_type(t):
+        pre, sym, suf = t
+        return ((pre + ' ') if pre else '') + sym + (suf or '')
+
+    def text_cons(c):
+        if c is None:
+            return ''
+        kind = c[0]
+        neg = '! ' if c[1] else ''
+        num = lambda op, n, dflt: '' if (op, n) == dflt else ((op if op != '=' or rnd.random() < 0.5 else '') + str(n) + ' ')
+        if kind == 'conn':
+            _, _, op, n, t, bk = c
+            return '{%sconnected to %s%s%s}' % (neg, num(op, n, ('>=', 1)), text_type(t), '' if bk == 'single' and rnd.random() < 0.5 else ' with %s bond' % bk)
+        if kind == 'ringsize':
+            return '{%sin ring of size %s%d}' % (neg, c[2] if c[2] != '=' else '', c[3])
+        if kind == 'nring':
+            return '{%sin %s%d ring}' % (neg, c[2] if c[2] != '=' else '', c[3])
+        return '{%shas %s%d radical electrons}' % (neg, c[2] if c[2] != '=' else '', c[3])
+
+    def all_constraints():
+        out = [None]
+        for neg in (False, True):
+            for op, n in (('>=', 1), ('=', 2), ('>', 1), ('<', 2), ('<=', 0), ('=', 0)):
+                for t in ((None, 'C', None), (None, 'H', None), (None, 'O', None), (None, '$', '?'), (None, 'C', '.')):
+                    for bk in ('single', 'double', 'any'):
+                        out.append(('conn', neg, op, n, t, bk))
+                out.append(('ringsize', neg, op, n + 2))
+                out.append(('nring', neg, op, n))
+                out.append(('radical', neg, op, n))
+        return out
+    cons = all_constraints()
+    frags = []
+    for sym in symbols:
+        for pre in prefixes:
+            for suf in suffixes:
+                frags.append(((pre, sym, suf), None, None, None, None))
+    for c in cons:
+        for sym in ('C', 'O', '$'):
+            frags.append(((None, sym, None if sym != '$' else '?'), c, None, None, None))
+    for bk in bondkinds:
+        for s1 in ('C', 'O', 'X'):
+            for s2 in ('C', 'H', 'O', '$'):
+                frags.append(((None, s1, None), None, (None, s2, '?' if s2 == '$' else None), bk, None))
+    for mp in molprefixes[1:]:
+        frags.append(((None, 'C', '?'), None, None, None, mp))
+        frags.append(((None, 'O', '?'), ('conn', False, '>=', 1, (None, 'C', '?'), 'any'), None, None, mp))
+    if tier == 'quick':
+        frags = rnd.sample(frags, 220)
+    viol, n, distinct, samples = [], 0, 0, []
+    with real.quiet():
+        for (t1, c1, t2, bk, mp) in frags:
+            lab1, lab2 = rnd.choice([('c1', 'c2'), ('x', 'y_1'), ('AtomLabel', 'b')])
+            sp = rnd.choice([' ', '\n  ', '\t'])
+            text = '%sfragment f{%s%s labeled %s %s' % ((mp + ' ') if mp else '', sp, text_type(t1), lab1, text_cons(c1))
+            if t2 is not None:
+                text += '%s%s labeled %s %s bond to %s' % (sp, text_type(t2), lab2, bk, lab1)
+            text += sp + '}'
+            try:
+                q = Read(text)
+            except Exception as e:    # noqa
+                viol.append({'id': 'read-%d' % len(viol), 'input': text, 'observed': 'Read raised %s: %s' % (type(e).__name__, e), 'expected': 'a query'})
+                continue
+            distinct += 1
+            for smi, m in mols:
+                n += 1
+                want = []
+                if molprefix_ok(mp, m):
+                    for a in m.GetAtoms():
+                        if not (type_ok(t1, a) and cons_ok(c1, a, m)):
+                            continue
+                        if t2 is None:
+                            want.append((a.GetIdx(),))
+                        else:
+                            for b in a.GetBonds():
+                                o = b.GetOtherAtom(a)
+                                if type_ok(t2, o) and bond_ok(bk, b):
+                                    want.append((a.GetIdx(), o.GetIdx()))
+                try:
+                    got = [tuple(x) for x in q.GetQueryMatches(Chem.MolFromSmiles(smi))]
+                except Exception as e:    # noqa
+                    got = 'raised %s' % type(e).__name__
+                if got == 'raised' or sorted(got) != sorted(want):
+                    if len(viol) < 15:
+                        viol.append({'id': 'match-%d' % len(viol), 'input': {'fragment': text, 'molecule': smi}, 'observed': got if isinstance(got, str) else sorted(got),
+                                     'expected': sorted(want),
+                                     'script': "from rdkit import Chem\nfrom pgradd.RINGParser.Reader import Read\nprint(Read(%r).GetQueryMatches(Chem.MolFromSmiles(%r)))  # expected %r\n" % (text, smi, sorted(want))})
+            if len(samples) < 4 and (c1 or t2):
+                samples.append(text)
+    return {'name': 'brute-force-matcher', 'evaluations': n, 'distinct_nontrivial': distinct, 'violations': viol, 'samples': samples,
+            'bound': '%d fragments (<= 2 atoms, <= 1 constraint, all symbol classes/prefixes/suffixes/bond kinds/operators/negation/molecule prefixes; random layout and labels) x %d molecules of <= 7 heavy atoms' % (len(frags), len(mols)),
+            'rule': 'a case is (fragment, molecule); fragments distinct by construction'}
